@@ -22,33 +22,50 @@ let show_fi (f : finfo) =
 let cur_dict : Big_int_Z.big_int list ref = ref []
 let get id = Hashtbl.find ctxs (int_of_string id)
 let put id s = Hashtbl.replace ctxs (int_of_string id) s
+(* the concrete dictionary / tmpOut bookkeeping (Model.FrameDDict) of the same contexts *)
+let dds : (int, ddict) Hashtbl.t = Hashtbl.create 16
+let getd id = try Hashtbl.find dds (int_of_string id) with Not_found -> dd_init
+let putd id d = Hashtbl.replace dds (int_of_string id) d
+let fake = ref 0
+let show_dd (d : ddict) =
+  Printf.sprintf "%s,%s,%s,%s,%s"
+    (match d.dd_dict with PNull -> "0,0" | PTmp o -> "1," ^ zstr o | PAbs a -> "2," ^ zstr a)
+    (zstr d.dd_dictSize) (zstr d.dd_tmpOut) (zstr d.dd_tmpOutSize) (zstr d.dd_tmpOutStart)
 let b s = (s = "1")
 
 let () =
-  reg "new" (function _ -> incr next; Hashtbl.replace ctxs !next dctx_init; string_of_int !next);
-  reg "free" (function [id] -> Hashtbl.remove ctxs (int_of_string id); "ok" | _ -> "badargs");
-  reg "copy" (function [id] -> incr next; Hashtbl.replace ctxs !next (get id); string_of_int !next | _ -> "badargs");
-  reg "reset" (function [id] -> put id (reset (get id)); "ok" | _ -> "badargs");
+  reg "new" (function _ -> incr next; Hashtbl.replace ctxs !next dctx_init; Hashtbl.replace dds !next dd_init; string_of_int !next);
+  reg "free" (function [id] -> Hashtbl.remove ctxs (int_of_string id); Hashtbl.remove dds (int_of_string id); "ok" | _ -> "badargs");
+  reg "copy" (function [id] -> incr next; Hashtbl.replace ctxs !next (get id); Hashtbl.replace dds !next (getd id); string_of_int !next | _ -> "badargs");
+  reg "reset" (function [id] -> put id (reset (get id)); putd id (dd_reset (getd id)); "ok" | _ -> "badargs");
   reg "setdict" (function [d] -> cur_dict := bytes_of_hex d; "ok" | _ -> "badargs");
-  (* dec <id> <src> <cap> <dstnull> <skip> <usedict>   (dictionary = the one given by setdict)  ->  consumed produced ret fuel oob stage outlen outmd5 [outhex] *)
-  reg "dec" (function [id; src; cap; dstnull; skip; usedict] ->
+  (* dec <id> <src> <cap> <dstnull> <skip> <usedict> [<stableDst> <dst address> <dictionary address>]
+     (dictionary = the one given by setdict; without addresses: fresh fake ones, far apart)
+     ->  consumed produced ret fuel oob stage outlen outmd5 [outhex] st=.. cap=.. dd=class,value,dictSize,tmpOut,tmpOutSize,tmpOutStart nops=.. *)
+  let dec id src cap dstnull skip usedict stable dstaddr dictaddr =
       let s = get id in
       bdlog := [];
-      let o = { o_stableDst = false; o_skip = b skip; o_dstnull = b dstnull } in
-      let (s', r) =
-        if b usedict then decompress_usingDict bdec s (bytes_of_hex src) (zs cap) !cur_dict o
-        else decompress bdec s (bytes_of_hex src) (zs cap) o in
-      put id s';
-      Printf.sprintf "%s %s %s %s %s %s %s st=%s,%s,%s,%s,%s,%s,%b cap=%s" (zstr r.r_consumed) (zstr r.r_produced) (zstr r.r_ret)
+      let o = { o_stableDst = b stable; o_skip = b skip; o_dstnull = b dstnull } in
+      let (((s', r), d'), ops) =
+        if b usedict then dd_decompress_usingDict bdec s (getd id) (bytes_of_hex src) (zs cap) !cur_dict (zs dictaddr) o (zs dstaddr)
+        else dd_decompress bdec s (getd id) (bytes_of_hex src) (zs cap) o (zs dstaddr) in
+      put id s'; putd id d';
+      Printf.sprintf "%s %s %s %s %s %s %s st=%s,%s,%s,%s,%s,%s,%b cap=%s dd=%s nops=%d" (zstr r.r_consumed) (zstr r.r_produced) (zstr r.r_ret)
         (if r.r_fuel then "FUEL" else "ok") (if s'.d_oob then "OOB" else "ok") (stage_name s'.d_stage) (show_bytes r.r_out)
         (zstr (stage_num s'.d_stage)) (zstr s'.d_remaining) (zstr s'.d_tmpInSize) (zstr s'.d_tmpInTarget)
-        (zstr s'.d_maxBlock) (zstr s'.d_maxBuf) s'.d_skip (zstr s'.d_tmpInCap)
+        (zstr s'.d_maxBlock) (zstr s'.d_maxBuf) s'.d_skip (zstr s'.d_tmpInCap) (show_dd d') (List.length ops)
+        ^ (if ops_okb s'.d_maxBuf (zs dstaddr) (Big_int_Z.add_big_int (zs dstaddr) (zs cap)) ops then " bounds=ok" else " bounds=BAD") in
+  reg "dec" (function
+    | [id; src; cap; dstnull; skip; usedict] ->
+      incr fake;
+      dec id src cap dstnull skip usedict "0" (if b dstnull then "0" else string_of_int (!fake * 1073741824)) "65536"
+    | [id; src; cap; dstnull; skip; usedict; stable; dstaddr; dictaddr] -> dec id src cap dstnull skip usedict stable dstaddr dictaddr
     | _ -> "badargs");
   (* info <id> <src> -> consumed ret fuel stage none|<fields> *)
   reg "info" (function [id; src] ->
       let s = get id in
-      let (s', r) = getFrameInfo bdec s (bytes_of_hex src) in
-      put id s';
+      let ((s', r), d') = dd_getFrameInfo bdec s (getd id) (bytes_of_hex src) in
+      put id s'; putd id d';
       Printf.sprintf "%s %s %s %s %s" (zstr r.i_consumed) (zstr r.i_ret) (if r.i_fuel then "FUEL" else "ok")
         (stage_name s'.d_stage) (match r.i_info with None -> "none" | Some f -> show_fi f)
     | _ -> "badargs");
